@@ -236,8 +236,13 @@ def gen_history(cfg, ref, rng):
                 at = rng.randrange(0, ops_total)
             tear = rng.choice([None, rng.random(), rng.random()])
             faults.append({'kind': 'kill', 'at_op': at, 'tear': tear})
-        elif r < 0.70:
+        elif r < 0.63:
             faults.append({'kind': 'sigint', 'at': [rng.randrange(1, max(2, ref['delivery_points']))]})
+        elif r < 0.70:
+            # graceful SIGINT, then the process dies inside the save it triggers
+            faults.append({'kind': 'sigint_kill', 'at': [rng.randrange(1, max(2, ref['delivery_points']))],
+                           'kill_after_ops': rng.randrange(0, ops_per_save + 1),
+                           'tear': rng.choice([None, rng.random()])})
         elif r < 0.85:
             a = rng.randrange(1, max(2, ref['delivery_points']))
             b = a + (rng.randrange(1, 12) if rng.random() < 0.7 else rng.randrange(1, max(2, ref['delivery_points'])))
@@ -369,6 +374,10 @@ def run_history(plan, ref_results, pre_bytes, stats):
             elif fault['kind'] == 'sigint' and world.sigints_delivered:
                 fired = 'sigint%d' % world.sigints_delivered
                 world.sigints_delivered = 0
+            elif fault['kind'] == 'sigint_kill' and world.sigints_delivered:
+                fired = 'sigint+kill' if world.fs.crash_fired else 'sigint1'
+                world.sigints_delivered = 0
+                world.fs.crash_fired = None
         if fired:
             stats['faults_fired'][fired] += 1
         trace.append([seg, start[0], fault, fired, o['outcome'], o['error'] if isinstance(o['error'], (str, type(None)))
@@ -583,7 +592,7 @@ def minimise(found, budget_s=240.0):
                 best = cand
     # simplify fault parameters
     for i, f in enumerate(best['faults']):
-        if f['kind'] == 'kill' and f.get('tear') is not None:
+        if f['kind'] in ('kill', 'sigint_kill') and f.get('tear') is not None:
             cand = copy.deepcopy(best)
             cand['faults'][i]['tear'] = None
             if fails(cand):
